@@ -30,9 +30,85 @@ def load_known():
         return json.load(f)
 
 
-def lake_build(targets=("Model", "driver", "Proofs")) -> tuple[bool, str]:
+def lake_build(targets=("Model", "driver", "gendriver")) -> tuple[bool, str]:
     p = subprocess.run(["lake", "build", *targets], cwd=LEAN_DIR, capture_output=True, text=True)
-    return p.returncode == 0, (p.stdout + p.stderr)[-4000:]
+    return p.returncode == 0, (p.stdout + p.stderr)[-6000:]
+
+
+def regenerate() -> tuple[bool, str]:
+    """Re-run the Python -> Lean translator on the current /repo sources."""
+    p = subprocess.run([sys.executable, os.path.join(HERE, "py2lean.py")], capture_output=True, text=True,
+                       env=dict(os.environ, FACTO_REPO=REPO))
+    return p.returncode == 0, (p.stdout + p.stderr).strip()
+
+
+FORBIDDEN = ["sorry", "admit", "native_decide", "bv_decide", "implemented_by", "unsafe ", "maxHeartbeats 0"]
+
+
+def grep_forbidden() -> list[str]:
+    """sorry / axiom / native_decide ... outside comments, in every Lean source of the framework."""
+    import re
+    hits = []
+    for root, _, files in os.walk(LEAN_DIR):
+        if ".lake" in root:
+            continue
+        for fn in files:
+            if not fn.endswith(".lean"):
+                continue
+            text = open(os.path.join(root, fn)).read()
+            text = re.sub(r"/-.*?-/", "", text, flags=re.S)
+            for ln, line in enumerate(text.splitlines(), 1):
+                code = line.split("--")[0]
+                for w in FORBIDDEN:
+                    if w in code:
+                        hits.append(f"{fn}:{ln}: {w}")
+                if re.match(r"\s*axiom\s", code):
+                    hits.append(f"{fn}:{ln}: axiom")
+    return hits
+
+
+def audit_axioms(theorems: list[str]) -> dict[str, list[str] | None]:
+    """`#print axioms` for every property theorem; None = the theorem does not exist / did not check."""
+    import re
+    import tempfile
+    src = "import Proofs\n" + "\n".join(f"#print axioms {t}" for t in theorems) + "\n"
+    with tempfile.NamedTemporaryFile("w", suffix=".lean", delete=False, dir=LEAN_DIR) as tf:
+        tf.write(src)
+        path = tf.name
+    try:
+        p = subprocess.run(["lake", "env", "lean", path], cwd=LEAN_DIR, capture_output=True, text=True)
+    finally:
+        os.unlink(path)
+    out = p.stdout + p.stderr
+    res: dict[str, list[str] | None] = {t: None for t in theorems}
+    for m in re.finditer(r"'([^']+)' depends on axioms: \[([^\]]*)\]", out):
+        res[m.group(1)] = [a.strip() for a in m.group(2).replace("\n", " ").split(",") if a.strip()]
+    for m in re.finditer(r"'([^']+)' does not depend on any axioms", out):
+        res[m.group(1)] = []
+    return res
+
+
+def prove(res: "Result", module: str, theorems: list[str]) -> bool:
+    """Build the property's proof module and audit its theorems. Records the proof keys of the evidence.
+    Returns False when a proof obligation no longer checks (the caller then searches for a failing input)."""
+    ok, log = lake_build((module,))
+    audited = audit_axioms(theorems) if ok else {t: None for t in theorems}
+    bad_axioms = {t: a for t, a in audited.items() if a is not None and not set(a) <= STD_AXIOMS}
+    missing = [t for t, a in audited.items() if a is None]
+    forbidden = grep_forbidden()
+    discharged = sum(1 for t, a in audited.items() if a is not None and set(a) <= STD_AXIOMS)
+    res.coverage.update({
+        "obligations": len(theorems), "discharged": discharged,
+        "checker_cmd": f"cd /verif/lean && lake build {module} && lake env lean <#print axioms of the {len(theorems)} property theorems>",
+        "trusted_base": ["Lean 4.33.0 kernel", "axioms: propext, Classical.choice, Quot.sound (audited by #print axioms on every run)",
+                         "spec layer Model/{Int32,SigMap,Circuit,Core,Elab}.lean", "harness/py2lean.py + Model/PyInt.lean (translator and integer shim)",
+                         "harness/facto_dump.py (artefact capture) and Lean's JSON decoding"],
+        "theorems": {t: ("ok" if (a is not None and set(a) <= STD_AXIOMS) else ("missing" if a is None else "axioms:" + ",".join(a))) for t, a in audited.items()},
+    })
+    res.proof_ok = ok and not bad_axioms and not missing and not forbidden
+    res.proof_log = log if not ok else ""
+    res.proof_problems = {"build_failed": not ok, "missing": missing, "bad_axioms": bad_axioms, "forbidden": forbidden}
+    return res.proof_ok
 
 
 def write_replay(prop: str, payload: dict) -> str:
@@ -58,6 +134,9 @@ class Result:
         self.assumptions: list[str] = []
         self.level = "proof"
         self.notes: list[str] = []
+        self.proof_ok = None
+        self.proof_log = ""
+        self.proof_problems = {}
 
     def violation(self, payload: dict, failing_input: bool = True):
         payload = dict(payload, property=self.prop, failing_input_found=failing_input)
